@@ -405,11 +405,43 @@ def r4_error_isolation(w):
                 r.bad(cons, '%s|item-swallowed' % b.short, 'Err items of the batch iterator in %s are %s' % (b.short, why), b.loc(nt['span']))
         # (c) the counter guards the Err return
         cons = {'fn': b.short, 'error_counters': sorted(counters)}
-        if counters and _counter_guards_err(c, v, counters):
+        tests = _counter_guards_err(c, v, counters) if counters else []
+        if tests:
             r.ok(cons, 'a non-zero error counter leads to the Err return')
         else:
             r.bad(cons, '%s|counter-unused' % b.short, 'no error counter of %s guards its Err return' % b.short, b.loc())
+            continue
+        # (d) and the test cannot be skipped: after the loop, every Ok return lies behind the "counter is zero" edge
+        zero_edges = set()
+        for sw in tests:
+            for tgt, label in v.switch_edges(sw):
+                if v.label_values(sw, label) == {False}:
+                    zero_edges.add((sw, tgt))
+        after = [s_ for (x, s_) in exits if x == sw_of(b, h)]
+        seen, work = set(), list(after)
+        while work:
+            x = work.pop()
+            if x in seen:
+                continue
+            seen.add(x)
+            for s_ in b.succs(x):
+                if b.blocks[s_]['cleanup'] or (x, s_) in zero_edges or s_ in blocks:
+                    continue
+                work.append(s_)
+        skipped = [bi for bi in sorted(seen) for st in b.blocks[bi]['stmts']
+                   if st['s'] == 'assign' and st['p']['l'] == 0 and not st['p']['proj'] and st['rv']['r'] == 'agg' and st['rv'].get('vname') == 'Ok']
+        cons = {'fn': b.short, 'error_counter_test_at': sorted(tests), 'ok_returns_not_behind_it': skipped}
+        if skipped:
+            r.bad(cons, '%s|counter-test-skipped' % b.short,
+                  '%s can return Ok after its batch loop without passing the "error counter is zero" test (the test is skipped on some path, e.g. an early return in '
+                  'one mode): I/O errors are counted but do not reach the exit status' % b.short, b.loc(b.blocks[skipped[0]]['term']['span']))
+        else:
+            r.ok(cons, 'every Ok return after the loop is reached only through the counter == 0 edge')
     return r
+
+
+def sw_of(b, h):
+    return b.succs(h)[0] if b.succs(h) else None
 
 
 def a_is_result_ok(t):
@@ -477,7 +509,9 @@ def _error_counters(c, v):
 
 
 def _counter_guards_err(c, v, counters):
+    """switch blocks that test `counter > 0` (or != 0, >= 1) and whose true edge dominates an Err return"""
     b = v.b
+    found = set()
     for bi, blk in enumerate(b.blocks):
         if blk['cleanup']:
             continue
@@ -505,8 +539,8 @@ def _counter_guards_err(c, v, counters):
                                         if kind == 'rv' and payload['r'] == 'use' and payload['op']['o'] in ('copy', 'move'):
                                             names.add(_place_name(v, payload['op']['p']))
                                     if names & counters:
-                                        return True
-    return False
+                                        found.add(sw)
+    return sorted(found)
 
 
 def _err_handled(c, v, b, blocks, h, bi, t, counters):
